@@ -411,6 +411,18 @@ func v2Messages(thorough bool) []v2Entry {
 			d.NestedType[0].Field = []*descriptorpb.FieldDescriptorProto{{Name: proto.String("f")}}
 			return d
 		}},
+		// deeply nested values of the recursive well-known types (60 / 150 / 1200 message levels): whatever the runtime's own
+		// Marshal produces its own Unmarshal reads back, so the bridge has to as well
+		{"Value{list nested 60 deep}", true, func() proto.Message { return deepValue(60) }},
+		{"Value{list nested 150 deep}", true, func() proto.Message { return deepValue(150) }},
+		{"Value{list nested 1200 deep}", true, func() proto.Message { return deepValue(1200) }},
+		{"DescriptorProto{nested 120 deep}", true, func() proto.Message {
+			d := &descriptorpb.DescriptorProto{Name: proto.String("L")}
+			for i := 0; i < 120; i++ {
+				d = &descriptorpb.DescriptorProto{Name: proto.String("L"), NestedType: []*descriptorpb.DescriptorProto{d}}
+			}
+			return d
+		}},
 		{"Timestamp{unknown fields}", true, func() proto.Message {
 			t := &timestamppb.Timestamp{Seconds: 3}
 			t.ProtoReflect().SetUnknown([]byte{0xa0, 0x06, 0x01, 0xaa, 0x06, 0x02, 0x68, 0x69})
@@ -563,4 +575,13 @@ func allValues(thorough bool) []val {
 	out = append(out, legacyValues()...)
 	out = append(out, eeValues(thorough)...)
 	return out
+}
+
+// deepValue: a google.protobuf.Value holding a list that holds a list ... n levels (two message levels per list level).
+func deepValue(n int) *structpb.Value {
+	v := structpb.NewNumberValue(1)
+	for i := 0; i < n/2; i++ {
+		v = structpb.NewListValue(&structpb.ListValue{Values: []*structpb.Value{v}})
+	}
+	return v
 }
